@@ -112,6 +112,7 @@ macro_rules | `(tactic| tx_step) => `(tactic| with_reducible apply TX.emit)
 macro_rules | `(tactic| tx_step) => `(tactic| with_reducible apply TX.fail)
 macro_rules | `(tactic| tx_step) => `(tactic| with_reducible assumption)
 macro_rules | `(tactic| tx_step) => `(tactic| (with_reducible refine TX.cancelKindFor_fst ?_ _ _ _ (by decide)))
+macro_rules | `(tactic| tx_step) => `(tactic| with_reducible apply TX.cancelUserAll_fst)
 
 macro "tx" : tactic => `(tactic| repeat' tx_step)
 
